@@ -37,6 +37,10 @@
 //   circuit-refused-below-cap, data-limit-exceeded/{forward,backward}, data-delivered-mismatch/*, data-corrupted/*,
 //   duration-limit-not-enforced/{source-end,destination-end}, service-scope-not-released/{memory,streams},
 //   connmgr-tag-left/{relay-v2-hop,relay-reservation}, panic.
+// RESOURCE_LIMIT_EXCEEDED is also the relay's answer when the resource scope of a hop / stop stream refuses SetService or
+// ReserveMemory, which a scope does once its stream died ("resource scope closed"): in a batch in which a party of the
+// CONNECT disconnects concurrently that code is explained without any counter (probe
+// resource-limit-answer-while-party-disconnects); sequentially the rule "no injected refusal => a cap is reached" stands.
 // Not judged (outside the statement, recorded as probes): which non-OK code a byzantine request gets, end-of-stream
 // propagation, the Limited flag / announced limit of real client connections.
 //
